@@ -55,6 +55,16 @@ func dump(sb *strings.Builder, v reflect.Value, depth int) {
 			sb.WriteString(",")
 		}
 		sb.WriteString("]")
+		if v.Cap() > v.Len() {
+			// spare capacity is operand memory too: an append by someone else writes there
+			sp := v.Slice(0, v.Cap())
+			sb.WriteString("spare[")
+			for i := v.Len(); i < v.Cap(); i++ {
+				dump(sb, sp.Index(i), depth+1)
+				sb.WriteString(",")
+			}
+			sb.WriteString("]")
+		}
 	case reflect.Array:
 		sb.WriteString("[")
 		for i := 0; i < v.Len(); i++ {
